@@ -645,6 +645,37 @@ async fn e2e(net: Net, seed: u64, n: usize, long: bool, full: bool) {
     sleep_ms(20_000).await; // everybody has heard from everybody
     let hashes = [rand_id(&mut rng), rand_id(&mut rng)];
     let mut sid = 0u64;
+    if long && seed % 2 == 0 {
+        // re-announce script: announce at 0 h and again at 12 h; everybody else must find the announcer at 25 h and at 35 h
+        // (within 24 h of the LAST announce) and nobody may find it at 37 h
+        let a = 0usize;
+        for (k, gap_h) in [(0u64, 12u64), (1, 13), (2, 10), (3, 2), (4, 1)] {
+            if k <= 1 {
+                sid += 1;
+                let h = search(&net, &dhts[a], addrs[a], sid, hashes[0], true);
+                let _ = tokio::time::timeout(std::time::Duration::from_secs(300), h).await;
+                sleep_ms(1500).await;
+            }
+            for j in 0..n {
+                if j != a {
+                    sid += 1;
+                    let hj = search(&net, &dhts[j], addrs[j], sid, hashes[0], false);
+                    let _ = tokio::time::timeout(std::time::Duration::from_secs(300), hj).await;
+                }
+            }
+            sleep_ms(gap_h * 3_600_000).await;
+        }
+        for j in 0..n {
+            sid += 1;
+            let hj = search(&net, &dhts[j], addrs[j], sid, hashes[0], false);
+            let _ = tokio::time::timeout(std::time::Duration::from_secs(300), hj).await;
+        }
+        for (i, d) in dhts.iter().enumerate() {
+            api_state(&net, d, addrs[i]).await;
+        }
+        net.log(json!({"ev":"End"}));
+        return;
+    }
     let gaps_short: [u64; 8] = [1_000, 5_000, 60_000, 600_000, 1_260_000, 1_800_000, 3_600_000, 7_200_000];
     let script_len = if long { 8 } else { 14 };
     for step in 0..script_len {
